@@ -217,6 +217,19 @@ pub fn scenarios(include_heavy: bool) -> Vec<Scenario> {
                     finish(h, r, |x| format!("{x:?}"))
                 }) });
             }
+            // range-filtered open (+ listing)
+            let b = bytes.clone();
+            v.push(Scenario { name: format!("archive-open-partial/{which}/{n}/sync"), is_async: false, role: Role::Reader, heavy: false, faults: true, run: Box::new(move |ch| {
+                let h = Handle::new(b.clone(), ch);
+                let r = catch(|| PMTiles::from_reader_partially(h.sync(), 1..5).map(|mut pm| view_sync(&mut pm, &[])));
+                finish(h, r, |x| format!("{x:?}"))
+            }) });
+            let b = bytes.clone();
+            v.push(Scenario { name: format!("archive-open-partial/{which}/{n}/async"), is_async: true, role: Role::Reader, heavy: false, faults: true, run: Box::new(move |ch| {
+                let h = Handle::new(b.clone(), ch);
+                let r = catch(|| block_on(PMTiles::from_async_reader_partially(h.asyn(), 1..5)).map(|mut pm| view_async(&mut pm, &[])));
+                finish(h, r, |x| format!("{x:?}"))
+            }) });
             // sessions: open, look every id up twice, then re-write into a plain cursor; every call's result is kept
             let b = bytes.clone();
             let p = probes.clone();
